@@ -695,6 +695,12 @@ class Fxp():
                 vdtype = type(val.item(0))
             else:
                 vdtype = val.dtype
+
+            # narrow NumPy types are widened: scaling, bias removal and size estimation must not wrap or round in the width of the input type
+            if val.dtype.kind in 'iu' and val.dtype.itemsize < 8:
+                val = val.astype(np.int64)
+            elif val.dtype.kind == 'f' and val.dtype.itemsize < 8:
+                val = val.astype(np.float64)
             
             try:
                 if isinstance(val, np.float128):
